@@ -667,7 +667,9 @@ func LoadSpecs(p *Program, specDir string) (*SpecSet, map[string]string, error) 
 		var cands []string
 		if path == ModPath || strings.HasPrefix(path, ModPath+"/") {
 			rel := strings.TrimPrefix(strings.TrimPrefix(path, ModPath), "/")
-			cands = append(cands, filepath.Join(p.RepoDir, rel, "contracts_verif.go"), filepath.Join(specDir, rel, "contracts_verif.go"))
+			// the mirror in /verif/specs is authoritative (tools/sync_specs.sh copies it into /repo as the
+			// guarded hook file); the repository copy is used when the mirror is absent
+			cands = append(cands, filepath.Join(specDir, rel, "contracts_verif.go"), filepath.Join(p.RepoDir, rel, "contracts_verif.go"))
 		} else {
 			cands = append(cands, filepath.Join(specDir, "ext", path, "contracts.go"))
 		}
@@ -677,9 +679,16 @@ func LoadSpecs(p *Program, specDir string) (*SpecSet, map[string]string, error) 
 					return nil, nil, err
 				}
 				if i == 0 && len(cands) == 2 {
-					src[path] = "repo"
-				} else if len(cands) == 2 {
 					src[path] = "mirror"
+					if rb, err := os.ReadFile(cands[1]); err == nil {
+						if mb, _ := os.ReadFile(c); string(rb) == string(mb) {
+							src[path] = "mirror (identical to the hook file in /repo)"
+						} else {
+							src[path] = "mirror (hook file in /repo differs: run tools/sync_specs.sh)"
+						}
+					}
+				} else if len(cands) == 2 {
+					src[path] = "repo"
 				} else {
 					src[path] = "ext"
 				}
